@@ -34,8 +34,10 @@ def gen_history(rng, max_ops=6, two=False):
             have_run = True
         elif r < 0.75:
             steps.append({"op": "edit_gtf", "wl": 0})
-        elif r < 0.85:
+        elif r < 0.80:
             steps.append({"op": "touch_gtf", "wl": 0})
+        elif r < 0.87:
+            steps.append({"op": "restore_old_gtf", "wl": 0})
         elif r < 0.95:
             steps.append({"op": "delete_db", "out": rng.choice(outs)})
         else:
@@ -86,6 +88,7 @@ def run(chk, orch):
                 ([{"spec": T}], [R(0, "A"), {"op": "delete_db", "out": "A"}, R(0, "B"), R(0, "A")]),
                 ([{"spec": T}], [R(0, "A"), {"op": "touch_gtf", "wl": 0}, R(0, "A"), R(0, "B")]),
                 ([{"spec": T}], [R(0, "A", complete_genedb=True), R(0, "B"), R(0, "A", complete_genedb=True)]),
+                ([{"spec": T}], [R(0, "A"), {"op": "restore_old_gtf", "wl": 0}, R(0, "A"), R(0, "B")]),
                 ([{"spec": T}], [R(0, "A", gtf_repr="gz"), {"op": "edit_gtf", "wl": 0}, R(0, "A", gtf_repr="gz"), R(0, "B")]),
             ]
             for ti, (wl_, st_) in enumerate(templates):
